@@ -20,7 +20,13 @@ static void init(void) {
     fill_text(g_rawdict, sizeof g_rawdict, 5);
     /* every stride-th record, plus always: the compressor-made streams, the legacy seeds and the families built for a specific decoder shortcut */
     g_sel = (int*)malloc(sizeof(int) * (size_t)g_nrec);
-    for (int i = 0; i < g_nrec; i++) if (i % g_stride == 0 || i >= g_nrec - 12 || !strncmp(g_rec[i].name, "rawtail", 7) || !strncmp(g_rec[i].name, "legacy", 6) || !strncmp(g_rec[i].name, "hdr cks", 7)) g_sel[g_nsel++] = i;
+    /* --sel 1: only the special families (their own unit, so that they are never the part a deadline cuts off); --sel 2: only the strided catalogue; 0: both */
+    int selMode = (int)vx_opt_int("--sel", 0);
+    for (int i = 0; i < g_nrec; i++) {
+        int special = !strncmp(g_rec[i].name, "rawtail", 7) || !strncmp(g_rec[i].name, "legacy", 6) || !strncmp(g_rec[i].name, "hdr cks", 7) || !strncmp(g_rec[i].name, "compressor", 10);
+        int strided = (i % g_stride == 0) && !special;
+        if ((special && selMode != 2) || (strided && selMode != 1)) g_sel[g_nsel++] = i;
+    }
 }
 
 #define CHECK_RET(what, r, cap) do { if (!ZSTD_isError(r) && (r) > (cap)) { vx_fail("%s returned %zu > capacity %zu", what, (size_t)(r), (size_t)(cap)); return 1; } } while (0)
